@@ -177,6 +177,8 @@ def check_equiv(base, out, alpha, beta, d, xmax, tag):
     """base: result on x, out: result on alpha x + beta; d = b-a of x; xmax = max|x|"""
     v = []
     pair = f'alpha={alpha:g},beta={beta:g}'
+    # input class of the key: decade of the eye height before -> after the unit change (+ the offset when there is one)
+    cls = amp_class(d) + '->' + amp_class(alpha * d)[3:] + (f',beta={beta:g}' if beta else '')
     # tolerance: the design's 1e-6 relative to the scaled eye height, plus the rounding floor of forming alpha x + beta
     tol = EQ_REL * alpha * d + 64 * EPS * (abs(beta) + alpha * xmax)
     B = {k: _num(base[k]) for k in FIELDS}
@@ -193,25 +195,25 @@ def check_equiv(base, out, alpha, beta, d, xmax, tag):
     msg = lambda k: f'{tag} {pair}: {k} base={base[k]!r} scaled={out[k]!r}'
     for k in ('mu0', 'mu1'):      # (the statement lists mu0, mu1, s0, s1 and the timing outputs; threshold is not compared)
         if not same_kind(k):
-            v.append((f'equiv:levels:{pair}', msg(k) + ' (finite on one side only)'))
+            v.append((f'equiv:levels:{cls}', msg(k) + ' (finite on one side only)'))
         elif both(k) and abs(O[k] - (alpha * B[k] + beta)) > tol:
-            v.append((f'equiv:levels:{pair}', msg(k) + f' expected {alpha*B[k]+beta!r} tol {tol:g}'))
+            v.append((f'equiv:levels:{cls}', msg(k) + f' expected {alpha*B[k]+beta!r} tol {tol:g}'))
     for k in ('s0', 's1'):
         if not same_kind(k):
-            v.append((f'equiv:levels:{pair}', msg(k) + ' (finite on one side only)'))
+            v.append((f'equiv:levels:{cls}', msg(k) + ' (finite on one side only)'))
         elif both(k) and abs(O[k] - alpha * B[k]) > tol:
-            v.append((f'equiv:levels:{pair}', msg(k) + f' expected {alpha*B[k]!r} tol {tol:g}'))
+            v.append((f'equiv:levels:{cls}', msg(k) + f' expected {alpha*B[k]!r} tol {tol:g}'))
     for k in ('t_left', 't_right', 't_opt'):
         if not same_kind(k):
-            v.append((f'equiv:timing:{pair}', msg(k) + ' (finite on one side only)'))
+            v.append((f'equiv:timing:{cls}', msg(k) + ' (finite on one side only)'))
         elif both(k) and abs(O[k] - B[k]) > STEP + 1e-12:
-            v.append((f'equiv:timing:{pair}', msg(k) + f' differ by more than one resampled step {STEP:g}'))
+            v.append((f'equiv:timing:{cls}', msg(k) + f' differ by more than one resampled step {STEP:g}'))
     ib, io = base['i'], out['i']
     if isinstance(ib, (int, np.integer)) and isinstance(io, (int, np.integer)):
         if int(ib) != int(io):
-            v.append((f'equiv:timing:{pair}', msg('i')))
+            v.append((f'equiv:timing:{cls}', msg('i')))
     elif repr(ib) != repr(io):
-        v.append((f'equiv:timing:{pair}', msg('i')))
+        v.append((f'equiv:timing:{cls}', msg('i')))
     # dedupe keys inside one case (first message kept)
     seen, outv = set(), []
     for k, m in v:
@@ -307,6 +309,15 @@ def enumerate_cases(ctx):
     return cases, n_full, n_dev
 
 
+# minimal inputs of the two confirmed defects (fixed content: harness seed 0), executed in both tiers
+REGRESS = [
+    # proposed_fixes/C17_1: crossing KMeans on raw (t, volts): t_left == t_right, nan levels for b-a = 100 V
+    (0, 'prbs7:64', 8, (0.0, 100.0), 0, 0, 0, (0, 1, 2, 3, 4)),
+    # proposed_fixes/C17_2: absolute 1e-10 tie tolerance of shortest_int: 1 mV eye scaled by 1e-3 moves t_opt / mu0
+    (0, 'rand1:128', 8, (0.0, 1e-3), 3, 2, 0, (0,)),
+]
+
+
 def run(ctx):
     ctx.rule('C17: full product bit pattern {PRBS7[:64],PRBS7[:128],PRBS9[:128],3 seeded random} x sps {8,16,32} x level pair '
              '(a,b) in {(0,1),(0,1e-3),(0,100),(5,6),(-50,50),(2e-4,1.2e-3)} x sigma {0.5,1,2,5}% of b-a x KMeans seed {0,1,2} '
@@ -319,6 +330,8 @@ def run(ctx):
     ctx.assume('scipy.signal.bessel/sosfiltfilt (the mild band-limit of the harness waveform) and RandomState are correct')
     ctx.assume('the accuracy bands are asserted on the enumerated waveforms / seeds only (statement: fixed numpy seeds)')
     ctx.run_case('selftest', selftest_case, ('selftest',))
+    for c in REGRESS:
+        ctx.run_case('regress', eye_case, c)
     cases, n_full, n_dev = enumerate_cases(ctx)
     ctx.space('axes.pattern', len(PATTERNS), quiet=True)
     ctx.space('axes.sps', len(SPS), quiet=True)
